@@ -8,7 +8,7 @@ import math
 from fractions import Fraction
 
 from . import engine as E
-from .engine import EQ, LE, LT, AnyOf, AllOf, isnum, is_sym, SymReal, SymRatio
+from .engine import EQ, LE, LT, AnyOf, AllOf, RatioEQ, isnum, is_sym, SymReal, SymRatio
 from .harness import (Monitor, here, finite, is_ps, in_service, served, waiting, onduty, all_inds, ciw)
 
 isinf = math.isinf
@@ -396,26 +396,17 @@ class C04Util(Monitor):
                 end = rec["killed"] if rec["killed"] is not None else T
                 den = den + (end - rec["start"])
             self.seen("c04_util_checked")
+            what = lambda: "node %s utilisation %s, attachment time %s / server time %s" % (n.id_number, u, num, den)
+            self.ck(LT(0, den), "utilisation_server_time_zero", what)
             if isinstance(u, SymRatio):
                 unum, uden = SymReal(u.num), SymReal(u.den)
+                self.ck(RatioEQ(unum, uden, num, den), "utilisation_value", what)
+                self.ck(AllOf(LE(0, unum), LE(unum, uden), LT(0, uden)), "utilisation_range", what)
             elif isnum(u):
-                # concrete replay (or fully concrete run): compare the quotient
-                dn = float(den) if not is_sym(den) else None
-                if dn:
-                    self.ck(EQ(u, float(num) / dn), "utilisation_value",
-                            lambda: "node %s utilisation %s, attachment time %s / server time %s" % (n.id_number, u, num, den))
-                    self.ck(LE(0, u) and LE(u, 1), "utilisation_range")
-                continue
+                self.ck(RatioEQ(u, 1.0, num, den), "utilisation_value", what)
+                self.ck(AllOf(LE(0, u), LE(u, 1)), "utilisation_range", what)
             else:
-                self.ck(False, "utilisation_missing", lambda: "node %s utilisation is %r" % (n.id_number, u))
-                continue
-            self.ck(EQ(unum, num), "utilisation_numerator",
-                    lambda: "node %s busy time %s, attachment time %s" % (n.id_number, unum, num))
-            self.ck(EQ(uden, den), "utilisation_denominator",
-                    lambda: "node %s total server time %s, expected %s" % (n.id_number, uden, den))
-            self.ck(LE(0, unum), "utilisation_nonneg")
-            self.ck(LE(unum, uden), "utilisation_le_1")
-            self.ck(LT(0, uden), "utilisation_den_pos")
+                self.ck(False, "utilisation_value", what)
 
 
 # ==============================================================================================
